@@ -54,36 +54,63 @@ pub fn exec(case: &Value) -> Value {
     r.unwrap_or(json!("panic"))
 }
 
-/// order-insensitive rendering of a rule value (sets and maps sorted)
+/// order-insensitive rendering of a rule value, read from the public fields (not through `Serialize`, whose
+/// attributes are part of what the round trip tests): sets and maps sorted, `None` distinct from empty
 fn canonical(r: &Rule) -> Value {
-    let mut v = serde_json::to_value(r).unwrap_or(Value::Null);
-    fn sort(v: &mut Value) {
-        match v {
-            Value::Array(a) => {
-                for x in a.iter_mut() {
-                    sort(x);
-                }
-                a.sort_by_key(|x| x.to_string());
+    fn set(o: &Option<std::collections::HashSet<String>>) -> Value {
+        match o {
+            None => Value::Null,
+            Some(s) => {
+                let mut v: Vec<&String> = s.iter().collect();
+                v.sort();
+                json!({ "some": v })
             }
-            Value::Object(o) => {
-                for (_, x) in o.iter_mut() {
-                    sort(x);
-                }
-            }
-            _ => {}
         }
     }
-    // authors / comments are vectors: keep their order
-    let authors = v.pointer("/meta/authors").cloned();
-    let comments = v.pointer("/meta/comments").cloned();
-    sort(&mut v);
-    if let Some(a) = authors {
-        v["meta"]["authors"] = a;
+    fn list(o: &Option<Vec<String>>) -> Value {
+        match o {
+            None => Value::Null,
+            Some(v) => json!({ "some": v }),
+        }
     }
-    if let Some(c) = comments {
-        v["meta"]["comments"] = c;
-    }
-    v
+    let meta = match &r.meta {
+        None => Value::Null,
+        Some(m) => json!({"tags": set(&m.tags), "attack": set(&m.attack), "authors": list(&m.authors), "comments": list(&m.comments)}),
+    };
+    let params = match &r.params {
+        None => Value::Null,
+        Some(p) => json!({ "disable": p.disable }),
+    };
+    let match_on = match &r.match_on {
+        None => Value::Null,
+        Some(m) => match &m.events {
+            None => json!({ "events": null }),
+            Some(e) => {
+                let mut v: Vec<(String, Vec<i64>)> = e
+                    .iter()
+                    .map(|(k, ids)| {
+                        let mut ids: Vec<i64> = ids.iter().cloned().collect();
+                        ids.sort();
+                        (k.clone(), ids)
+                    })
+                    .collect();
+                v.sort();
+                json!({"events": {"some": v}})
+            }
+        },
+    };
+    let matches = match &r.matches {
+        None => Value::Null,
+        Some(m) => {
+            let mut v: Vec<(&String, &String)> = m.iter().collect();
+            v.sort();
+            json!({ "some": v })
+        }
+    };
+    json!({
+        "name": r.name, "type": r.ty.as_ref().map(|t| format!("{t:?}")), "meta": meta, "params": params, "match_on": match_on,
+        "matches": matches, "condition": r.condition, "severity": r.severity, "actions": set(&r.actions),
+    })
 }
 
 fn q(s: &str) -> Value {
@@ -181,7 +208,7 @@ pub fn valid_doc(rng: &mut Rng) -> Vec<(String, Value)> {
         e.push(("severity".into(), p(*rng.pick(&["0", "5", "10", "11", "200", "255", "+5", "0x10", "0o7", "null"]))));
     }
     if rng.chance(1, 2) {
-        let a = if rng.chance(1, 4) { p("null") } else { seq(strs(rng, &HOSTILE, 2)) };
+        let a = if rng.chance(1, 4) { p("null") } else if rng.chance(1, 4) { seq(vec![]) } else { seq(strs(rng, &HOSTILE, 2)) };
         e.push(("actions".into(), a));
     }
     e
@@ -293,7 +320,7 @@ pub fn gen(tier: &str, seed: u64, out: &mut dyn FnMut(Value)) {
             }
             6 => {
                 c.retain(|(k, _)| k != "meta");
-                c.push(("meta".into(), map(vec![(p("attack"), seq(vec![q(*rng.pick(&["T1234", "1234", "T", "T12.a", "t1.2", "T1 ", "T1.2.3", "\u{e9}1", "TA0001"]))]))])));
+                c.push(("meta".into(), map(vec![(p("attack"), seq(vec![q(*rng.pick(&["T1234", "1234", "T", "T12.a", "t1.2", "T1 ", "T1.2.3", "\u{e9}1", "TA0001", "T\u{ff11}\u{ff12}", "T\u{661}\u{662}", "T1.\u{966}", "\u{ff34}1", "T1\n", "\nT1", "T1.", "T.1", " T1", "T 1", "T1x"]))]))])));
                 out(case(to_tree(&c), "ATT&CK id"));
             }
             7 => {
